@@ -63,7 +63,8 @@ type c09Node struct {
 	sm       *shardManagerImpl
 	events   *shardEventDelegate
 	left     bool
-	regAt    map[int]time.Time // harness view: shard -> timestamp of this node's open stream registration
+	regAt    map[int]time.Time // shard -> what RegisterShard returned (the handle UnregisterShard wants back)
+	claimNo  map[int]int       // harness view: shard -> position of this node's latest claim in the order the claims were made
 	streamUp map[int]bool      // the node's stream for the shard is open (registered by the harness, not ended)
 	snaps    [][]byte
 }
@@ -128,7 +129,7 @@ func c09Run(c c09Case) (res c09Result) {
 		sm.ml = ml
 		sm.started = true
 		sm.mutex.Unlock()
-		nodes = append(nodes, &c09Node{name: name, sm: sm, events: ev, regAt: map[int]time.Time{}, streamUp: map[int]bool{}})
+		nodes = append(nodes, &c09Node{name: name, sm: sm, events: ev, regAt: map[int]time.Time{}, claimNo: map[int]int{}, streamUp: map[int]bool{}})
 	}
 	byName := map[string]*c09Node{}
 	for _, n := range nodes {
@@ -200,6 +201,7 @@ func c09Run(c c09Case) (res c09Result) {
 		a.delivered[to.name]++
 		to.sm.delegate.NotifyMsg(a.data)
 	}
+	claimSeq := 0      // claims in the order they were made (the oracle's notion of "newest" - not the code's time stamps)
 	var claimAnn []int // per claim op: index of the announcement it produced (-1: none)
 	noteClaim := func(before int) {
 		annMu.Lock()
@@ -225,6 +227,8 @@ func c09Run(c c09Case) (res c09Result) {
 				continue
 			}
 			time.Sleep(time.Microsecond) // distinct wall-clock stamps between claims
+			claimSeq++
+			n.claimNo[sh] = claimSeq
 			n.regAt[sh] = n.sm.RegisterShard(c09ShardID(sh))
 			n.streamUp[sh] = true
 			n.snaps = append(n.snaps, n.sm.delegate.LocalState(false))
@@ -254,6 +258,8 @@ func c09Run(c c09Case) (res c09Result) {
 			vfYieldHook.Store(&hk)
 			done := make(chan time.Time, 1)
 			time.Sleep(time.Microsecond)
+			claimSeq++
+			n.claimNo[sh] = claimSeq
 			go func() { done <- n.sm.RegisterShard(c09ShardID(sh)) }()
 			select {
 			case <-parked:
@@ -263,6 +269,8 @@ func c09Run(c c09Case) (res c09Result) {
 				return
 			}
 			time.Sleep(time.Microsecond)
+			claimSeq++
+			other.claimNo[sh] = claimSeq
 			other.regAt[sh] = other.sm.RegisterShard(c09ShardID(sh))
 			other.streamUp[sh] = true
 			other.snaps = append(other.snaps, other.sm.delegate.LocalState(false))
@@ -391,7 +399,7 @@ func c09Run(c c09Case) (res c09Result) {
 					owners = append(owners, n.name)
 				}
 			}
-			if at, ok := n.regAt[sh]; ok && (newest == nil || at.After(newest.regAt[sh])) {
+			if no, ok := n.claimNo[sh]; ok && (newest == nil || no > newest.claimNo[sh]) {
 				newest = n
 			}
 		}
